@@ -546,8 +546,8 @@ theorem step_freeBuffer {F : LifeFacts} {T : List Wrapper} (sem : Sem Obj Arg Va
   · simp [agrees, cstep, tstep, CCall.retTy, expected]
 
 theorem step_nullArg {F : LifeFacts} {T : List Wrapper} (hT : ∀ w ∈ T, wrapperOk w = true) (sem : Sem Obj Arg Val)
-    (s : CSt Obj Val) (w : Wrapper) (h : Nat) (hd : cDefined T s (.nullArg w h : CCall Arg) = true) :
-    StepOk F T sem s (.nullArg w h) := by
+    (s : CSt Obj Val) (w : Wrapper) (p : String) (h : Nat) (hd : cDefined T s (.nullArg w p h : CCall Arg) = true) :
+    StepOk F T sem s (.nullArg w p h) := by
   simp only [cDefined, Bool.and_eq_true] at hd
   have hg := guardRet_sound (hT w (List.contains_iff_mem.mp hd.1.1))
   refine ⟨?_, ?_, ?_, ?_⟩
@@ -571,29 +571,51 @@ theorem cstep_refines {F : LifeFacts} (hF : F.Good) {T : List Wrapper} (hT : ∀
   | destroy slot => exact step_destroy hF hL sem s slot hd
   | writeMem h a oom => exact step_writeMem hF hL sem hsem s h a oom hd
   | freeBuffer => exact step_freeBuffer sem s hd
-  | nullArg w h => exact step_nullArg hT sem s w h hd
+  | nullArg w p h => exact step_nullArg hT sem s w p h hd
+
+theorem countP_objs {Obj : Type} (l : List (HPtr Obj)) :
+    (l.map HPtr.st).count .live = (l.map HPtr.obj?).countP Option.isSome := by
+  induction l with
+  | nil => rfl
+  | cons a l ih => cases a <;> simp [HPtr.st, HPtr.obj?, ih]
+
+theorem countP_res {Val : Type} (l : List (Option Val)) : (l.map Option.isSome).count true = l.countP Option.isSome := by
+  induction l with
+  | nil => rfl
+  | cons a l ih => cases a <;> simp [ih]
+
+theorem run_append (F : LifeFacts) (s : St) (a b : List Op) : run F s (a ++ b) = run F (run F s a) b := by
+  simp [run, List.foldl_append]
+
+theorem validRun_append (F : LifeFacts) : ∀ (a b : List Op) (s : St),
+    validRun F s (a ++ b) = (validRun F s a && validRun F (run F s a) b)
+  | [], b, s => by simp [validRun, run]
+  | op :: a, b, s => by
+    simp only [List.cons_append, validRun, run, List.foldl_cons, Bool.and_assoc]
+    rw [validRun_append F a b (step F s op)]
+    rfl
 
 /-- … and therefore every history inside it: the C machine's final objects, results and buffers are the twin's, call by
     call the C caller saw what a faithful wrapper shows for the twin's outcome, the ownership state is the one
-    `run`/`step` of Model/CApi.lean compute for a history that obeys the usage rule, and the ledger invariant holds. -/
+    `run`/`step` of Model/CApi.lean compute for some history that obeys the usage rule, and the ledger invariant holds. -/
 theorem crun_refines {F : LifeFacts} (hF : F.Good) {T : List Wrapper} (hT : ∀ w ∈ T, wrapperOk w = true) (hL : LifeRetsOk T)
     (sem : Sem Obj Arg Val) (hsem : sem.WF) : ∀ (es : List (CCall Arg)) (s : CSt Obj Val), Inv s.erase → cDefinedRun F T sem s es = true →
     (crun F T sem s es).1.abs = (trun sem s.abs es).1 ∧
     agreesAll es (crun F T sem s es).2 (trun sem s.abs es).2 ∧
     Inv (crun F T sem s es).1.erase ∧
-    (crun F T sem s es).1.hs.length = s.hs.length ∧ (crun F T sem s es).1.rs.length = s.rs.length
-  | [], s, hi, _ => ⟨rfl, trivial, hi, rfl, rfl⟩
+    (∃ ops, validRun F s.erase ops = true ∧ (crun F T sem s es).1.erase = run F s.erase ops)
+  | [], s, hi, _ => ⟨rfl, trivial, hi, [], rfl, rfl⟩
   | e :: es, s, hi, hd => by
     simp only [cDefinedRun, Bool.and_eq_true] at hd
     obtain ⟨h1, h2, h3, h4⟩ := cstep_refines hF hT hL sem hsem s hi e hd.1
-    obtain ⟨i1, i2, i3⟩ := run_inv hF (opOf sem s e) s.erase hi h2
-    rw [← h1] at i1 i2 i3
-    obtain ⟨k1, k2, k3, k4, k5⟩ := crun_refines hF hT hL sem hsem es (cstep F T sem s e).1 i1 hd.2
+    obtain ⟨i1, _, _⟩ := run_inv hF (opOf sem s e) s.erase hi h2
+    rw [← h1] at i1
+    obtain ⟨k1, k2, k3, ops, k4, k5⟩ := crun_refines hF hT hL sem hsem es (cstep F T sem s e).1 i1 hd.2
     simp only [crun, trun]
     rw [← h3]
-    refine ⟨k1, ⟨h4, k2⟩, k3, ?_, ?_⟩
-    · rw [k4, ← erase_hs_length, i2, erase_hs_length]
-    · rw [k5, ← erase_rs_length, i3, erase_rs_length]
+    refine ⟨k1, ⟨h4, k2⟩, k3, opOf sem s e ++ ops, ?_, ?_⟩
+    · rw [validRun_append, h2, ← h1, k4]; rfl
+    · rw [run_append, ← h1, k5]
 
 end
 
